@@ -814,7 +814,7 @@ Lemma object_eqb_trans a b c :
   object_eqb a b = true -> object_eqb b c = true -> object_eqb a c = true.
 Proof.
   unfold object_eqb. rewrite !Bool.andb_true_iff, !String.eqb_eq, !Z.eqb_eq.
-  intros [[[[P1 E1] M1] L1] C1] [[[[P2 E2] M2] L2] C2].
+  intros [[[P1 E1] M1] C1] [[[P2 E2] M2] C2].
   repeat split; try congruence. apply (card_eqb_trans _ _ _ C1 C2).
 Qed.
 
